@@ -451,7 +451,28 @@ class Repo:
             cur = [p[0] for p in f.params()]
             if cur != info['params'] and len(cur) == len(info['params']):
                 # by position, but never across a permutation: a name that is still in use keeps its meaning
-                f.param_alias = {c: o for c, o in zip(cur, info['params']) if c != o and o not in cur and c not in info['params']}
+                alias = {c: o for c, o in zip(cur, info['params']) if c != o and o not in cur and c not in info['params']}
+                # ... and only while the callers still hand over the same things at those positions: a helper whose first
+                # parameter used to be the pupil sampling and now is a precomputed ratio kept the count, not the meaning
+                idx = [i for i, c in enumerate(cur) if c in alias]
+                verdicts = []
+                for ck, old_sites in (info.get('sites') or {}).items():
+                    if not self.has_func(ck):
+                        continue
+                    for new_site in call_site_texts(self.func(ck), f.name, cur):
+                        verdicts.append(any(all(new_site[i] == o_[i] for i in idx) for o_ in old_sites))
+                if verdicts and not any(verdicts):
+                    alias = {}
+                f.param_alias = alias
+
+    def signature_moved(self, key):
+        """A private helper the rules know by its parameter names no longer has them (and the change is not a mere
+        renaming): what it is handed means something else, so rules that read its parameters give no verdict."""
+        info = _known_spec().get('private', {}).get(key)
+        if info is None or not self.has_func(key):
+            return False
+        f = self.func(key)
+        return [f.param_alias.get(p[0], p[0]) for p in f.params()] != info['params']
 
     # ---------------------------------------------------------------- lookup
     def func(self, key):
@@ -515,6 +536,30 @@ def _known_spec():
         except OSError:
             _KNOWN_SPEC = {}
     return _KNOWN_SPEC
+
+
+def call_site_texts(caller, name, params):
+    """For every call of a function called `name` in the body of `caller`: the source text handed over for each of
+    `params` (None where the site leaves it out).  Used to tell a parameter that was merely renamed from a position
+    that now carries something else."""
+    out = []
+    for node in ast.walk(caller.node):
+        if not isinstance(node, ast.Call):
+            continue
+        d = _dotted(node.func)
+        if d is None or d.split('.')[-1] != name or any(isinstance(a, ast.Starred) for a in node.args):
+            continue
+        ps = list(params)
+        if ps and ps[0] in ('self', 'cls') and len(d.split('.')) > 1:
+            ps = ps[1:]
+        texts = {}
+        for p_, a in zip(ps, node.args):
+            texts[p_] = ast.unparse(a)
+        for k in node.keywords:
+            if k.arg is not None:
+                texts[k.arg] = ast.unparse(k.value)
+        out.append([texts.get(p_) for p_ in params])
+    return out
 
 
 def callees_of(repo, f):
